@@ -267,13 +267,26 @@ def main():
             idx[j] += 1
             remaining -= 1
         # through encode/decode, as on the line
-        wire = [SecsIBlock.decode(b.encode()) for b in order]
+        try:
+            wire = [SecsIBlock.decode(b.encode()) for b in order]
+        except Exception as exc:  # noqa: BLE001
+            res.violate("block-roundtrip", f"a block produced by split cannot be encoded/decoded: {hlib.errkind(exc)}", {"systems": systems})
+            continue
+        if any(b is None for b in wire):
+            badb = order[[b is None for b in wire].index(True)]
+            res.violate("block-roundtrip", "a valid encoded block (in-range header) is rejected by decode",
+                        {"hdr": [int(getattr(badb.header, f)) for f in FIELDS], "data": badb.data.hex()[:80]}, "block", None)
+            continue
         stub = ProtoStub()
         done = []
-        for b in wire:
-            m = stub._add_message_block(b)
-            if m is not None:
-                done.append(m)
+        try:
+            for b in wire:
+                m = stub._add_message_block(b)
+                if m is not None:
+                    done.append(m)
+        except Exception as exc:  # noqa: BLE001
+            res.violate("reassembly", f"_add_message_block raised {hlib.errkind(exc)}", {"systems": systems, "order": [b.header.system for b in order]})
+            continue
         ans = "ok " + ";".join(hdr_args(m.header) + " " + hexs(m.data) + " n=" + str(len(m.blocks)) for m in done) \
             + " | pending=" + ",".join(str(s) for s in stub._incomplete_messages)
         cases.append({"systems": systems, "blocks": len(order)})
